@@ -56,6 +56,7 @@ def run(prog, chk):
     chk.rule(index_is_position, prog, chk)
     chk.rule(formatter_cast_guarded, prog, chk)
     chk.rule(formatter_trims_one_character_class_at_a_time, prog, chk)
+    chk.rule(formatter_integer_shortcut_is_exact, prog, chk)
     chk.rule(endpoints_overwritten_only_when_absent, prog, chk)
     chk.rule(X.check_sinks, prog, chk)
     chk.rule(X.check_readers, prog, chk)
@@ -511,3 +512,39 @@ def comma_wsp(prog, chk):
             chk.ob(not esc, "A16.comma-wsp", f"{b.short}:after-comma", b.where(bb, t.get("line")), "white space after the comma is skipped with it", f"{b.short} consumes the comma and returns without skipping the white space that may follow it: `d=\"M 1, 2 L 3, 4\"` - valid path data - leaves the blank in front of the next number, which then fails to parse")
     if not n:
         chk.undecided("A16.comma-wsp", "skip_wsp_comma", cands[0].where(), "how the comma is consumed in the separator skipper (no advance() call) is not read here")
+
+
+
+def formatter_integer_shortcut_is_exact(prog, chk):
+    """fstr writes a number as an integer only when it *is* that integer: the value it turns into integer text (an
+    `as i32` / `as i64` cast) is the number itself, not a rounded neighbour.  `x.round() as i32` under a tolerance test
+    writes 150.012 as 150 - a coordinate that later references read back is then off by more than the 3-decimal
+    rounding of the output (the tolerance grows with the magnitude of the value)"""
+    b = prog.body("svgdx::types::fstr")
+    chk.touch(b)
+    ROUND = ("round", "floor", "ceil", "trunc", "round_ties_even")
+    n = 0
+    for x, i, st in b.all_stmts():
+        rv = st.get("rv") or {}
+        if rv.get("k") != "cast" or "FloatToInt" not in str(rv.get("ck", "")):
+            continue
+        n += 1
+        o = R.origin(b, rv["op"], carriers={})
+        rounded = o[0] == "call" and "fn" in o[2] and Callee(o[2]["fn"]).path.split("::")[-1] in ROUND and ("f32" in Callee(o[2]["fn"]).path or "f64" in Callee(o[2]["fn"]).path)
+        if rounded:
+            # `if x == x.round() { (x.round() as i32).to_string() }` is exact all the same: an equality test of the
+            # parameter itself stands in front
+            exact_test = False
+            for x2, i2, st2 in b.all_stmts():
+                rv2 = st2.get("rv") or {}
+                if rv2.get("k") == "binop" and rv2.get("op") == "Eq" and b.dominates(x2, x):
+                    for sd in ("a", "b"):
+                        ch = b.chase(rv2[sd])
+                        if ch[0] == "place" and not ch[1][1] and 1 <= ch[1][0] <= b.argc:
+                            exact_test = True
+            if exact_test:
+                chk.undecided("A14.formatter-exact", f"fstr:int-cast#{n}", b.where(x, st.get("line")), "fstr writes a rounded value as an integer behind an equality test of its parameter; whether the test makes the two equal is not decided")
+                continue
+        chk.ob(not rounded, "A14.formatter-exact", f"fstr:int-cast#{n}", b.where(x, st.get("line")), "the integer written is the value itself, cut to an integer", f"fstr converts {Callee(o[2]['fn']).path.split('::')[-1] if rounded else ''}(x), not x, to the integer it writes: a value that is merely near a whole number is written as that number (150.012 -> 150), an error beyond the 3-decimal rounding of the output that every later reference to the written coordinate inherits")
+    if not n:
+        chk.undecided("A14.formatter-exact", "fstr", b.where(), "fstr has no float-to-integer cast: how whole numbers are written is not read here")
